@@ -62,6 +62,7 @@ type Event struct {
 	Pos    [3]int // line, col, offset as seen in c.pos
 	Text   string
 	Labels []string // canonical values of the label arguments
+	Flats  []string // flat rendering of the label arguments
 	State  string   // canonical snapshot of c.state ("" if variant has none)
 	Global string   // canonical snapshot of c.globalStore (harness key removed)
 	ErrSeq int      // sequence number of the error returned/panicked (0 none)
@@ -122,6 +123,38 @@ type PVal struct {
 	Text   string
 	Off    int
 	Labels []string
+	Flats  []string // Flat rendering of the label values
+}
+
+// Flat renders a value so that regrouping of action-less structure is
+// invisible: matched bytes are concatenated, values made by actions are
+// kept (with their own labels rendered flat).
+func Flat(v any) string {
+	var b strings.Builder
+	flat(&b, v)
+	return b.String()
+}
+
+func flat(b *strings.Builder, v any) {
+	switch v := v.(type) {
+	case nil:
+	case []byte:
+		b.Write(v)
+	case string:
+		b.WriteString("S" + strconv.Quote(v))
+	case []any:
+		for _, x := range v {
+			flat(b, x)
+		}
+	case *PVal:
+		fmt.Fprintf(b, "<P%d %q@%d", v.ID, v.Text, v.Off)
+		for _, l := range v.Flats {
+			b.WriteString(";" + l)
+		}
+		b.WriteString(">")
+	default:
+		b.WriteString(Canon(v))
+	}
 }
 
 // CloneList is the Cloner-implementing state value.
@@ -221,6 +254,7 @@ func RunBlock(ctx *Ctx, kind byte, id int, pos [3]int, text []byte, state, globa
 	ev := Event{ID: id, Kind: kind, Pos: pos, Text: string(text)}
 	for _, a := range args {
 		ev.Labels = append(ev.Labels, Canon(a))
+		ev.Flats = append(ev.Flats, Flat(a))
 	}
 	if state != nil {
 		ev.State = CanonStore(state)
@@ -261,7 +295,7 @@ func RunBlock(ctx *Ctx, kind byte, id int, pos [3]int, text []byte, state, globa
 	case KAction:
 		switch blk.Ret {
 		case RetP:
-			val = &PVal{ID: id, Text: string(text), Off: pos[2], Labels: ev.Labels}
+			val = &PVal{ID: id, Text: string(text), Off: pos[2], Labels: ev.Labels, Flats: ev.Flats}
 		case RetText:
 			val = string(text)
 		case RetNil:
@@ -316,6 +350,7 @@ type ErrInfo struct {
 // Obs is what one Parse call showed.
 type Obs struct {
 	Val      string // canonical value
+	Flat     string // flat rendering of the value
 	ErrNil   bool
 	TypeOK   bool // err is errList of *parserError
 	Errs     []ErrInfo
